@@ -8,6 +8,8 @@ import (
 	"math/big"
 	"math/rand/v2"
 	"net/netip"
+	"net/url"
+	"strconv"
 	"strings"
 	"time"
 
@@ -27,10 +29,13 @@ import (
 func main() {
 	o := hlib.ParseFlags()
 	r := hlib.NewResult("C09", o)
-	r.Rule = "counter: random (limit, interval, timestamp-step) sequences fed to the real RequestCounter.Add, " +
-		"the Lean model and an independent window-log oracle; backoff: random configurations and client " +
-		"sequences fed to the real Backoff, the model and a twin real limiter that only sees one subnet; " +
-		"a case is non-trivial when at least one event was dropped and one passed; distinct = distinct op logs"
+	r.Rule = "every campaign runs the real code, an independent Go reference monitor of the statement (oracle.go: byte-masked subnets, " +
+		"window log, backoff, persistent+dynamic allowlist, response weight, profile limit) and the Lean model on the same ops; the monitor " +
+		"is consulted first and raises violations with the op log as replay. counter: (limit, interval, timestamp-step) sequences on " +
+		"RequestCounter.Add; backoff: random configurations, client sequences, CountResponses at estimate multiples and allowlist updates on " +
+		"Backoff plus a twin limiter that only sees one subnet; proflim: DefaultRatelimiter; mw: production stack on five protocols; libmw: " +
+		"ratelimit.Middleware; timed: sleep-grid schedules for expiry, backoff duration, profile window; cross: monitor vs model on exactly " +
+		"timed synthetic histories. A case is non-trivial when at least one event was dropped and one passed; distinct = distinct op logs"
 	m := hlib.StartModel(o.Model, "C09")
 	defer m.Close()
 
@@ -38,7 +43,9 @@ func main() {
 	backoffCampaign(o, r, m)
 	profLimCampaign(o, r, m)
 	mwCampaign(o, r, m)
+	libmwCampaign(o, r, m)
 	timedCampaign(o, r, m)
+	crossCampaign(o, r, m)
 	backoffExpiryFinding(o, r)
 
 	r.ModelOps = r.Evaluations
@@ -186,11 +193,32 @@ type bcfg struct {
 	l4, l6           int
 	refuseAny        bool
 	allow            []netip.Prefix
+	// dyn is the initial dynamic part of the allowlist.
+	dyn []netip.Prefix
+}
+
+func dynLine(nets []netip.Prefix) string {
+	l := "dyn"
+	for _, p := range nets {
+		l += " " + prefArgs(p)
+	}
+
+	return l
 }
 
 func (c *bcfg) real() *ratelimit.Backoff {
+	l, _ := c.realDyn()
+
+	return l
+}
+
+// realDyn also returns the allowlist object so that it can be updated while
+// the limiter is in use.
+func (c *bcfg) realDyn() (*ratelimit.Backoff, *ratelimit.DynamicAllowlist) {
+	al := ratelimit.NewDynamicAllowlist(c.allow, c.dyn)
+
 	return ratelimit.NewBackoff(&ratelimit.BackoffConfig{
-		Allowlist:            ratelimit.NewDynamicAllowlist(c.allow, nil),
+		Allowlist:            al,
 		Period:               c.period,
 		Duration:             c.duration,
 		Count:                c.count,
@@ -202,7 +230,7 @@ func (c *bcfg) real() *ratelimit.Backoff {
 		IPv6Interval:         c.i6,
 		IPv6SubnetKeyLen:     c.l6,
 		RefuseANY:            c.refuseAny,
-	})
+	}), al
 }
 
 func addrArgs(ip netip.Addr) string {
@@ -221,6 +249,9 @@ func (c *bcfg) modelLines() (lines []string) {
 	for _, p := range c.allow {
 		lines = append(lines, "allow "+prefArgs(p))
 	}
+	if len(c.dyn) > 0 {
+		lines = append(lines, dynLine(c.dyn))
+	}
 
 	return lines
 }
@@ -232,7 +263,7 @@ func genCfg(rng *rand.Rand) (c *bcfg) {
 		count:     uint(rng.IntN(4)),
 		period:    exp[rng.IntN(2)],
 		duration:  exp[rng.IntN(2)],
-		est:       uint64(1 + rng.IntN(3)*50),
+		est:       []uint64{1, 60, 75, 100, 150}[rng.IntN(5)],
 		c4:        uint(1 + rng.IntN(5)),
 		c6:        uint(1 + rng.IntN(5)),
 		i4:        ivls[rng.IntN(2)],
@@ -246,6 +277,9 @@ func genCfg(rng *rand.Rand) (c *bcfg) {
 	}
 	for i := rng.IntN(3); i > 0; i-- {
 		c.allow = append(c.allow, genPrefix(rng))
+	}
+	if rng.IntN(3) == 0 {
+		c.dyn = genNets(rng)
 	}
 
 	return c
@@ -288,7 +322,18 @@ func genPrefix(rng *rand.Rand) netip.Prefix {
 	return p
 }
 
+func genNets(rng *rand.Rand) (nets []netip.Prefix) {
+	for i := rng.IntN(3); i > 0; i-- {
+		nets = append(nets, genPrefix(rng))
+	}
+
+	return nets
+}
+
 type bev struct {
+	// isDyn: not a query but DynamicAllowlist.Update(dyn).
+	isDyn bool
+	dyn   []netip.Prefix
 	ip    netip.Addr
 	qtype uint16
 	// respLen > 0: a CountResponses call with a message of about that length.
@@ -302,17 +347,38 @@ func mkReq(qt uint16) *dns.Msg {
 	return m
 }
 
+// mkResp builds a response of exactly l bytes (for l >= 54; the smallest
+// message otherwise).
 func mkResp(qt uint16, l int) *dns.Msg {
 	m := mkReq(qt)
 	m.Response = true
-	for m.Len() < l {
+	txt := func(n int) {
 		m.Answer = append(m.Answer, &dns.TXT{
 			Hdr: dns.RR_Header{Name: "example.org.", Rrtype: dns.TypeTXT, Class: dns.ClassINET, Ttl: 10},
-			Txt: []string{strings.Repeat("x", 40)},
+			Txt: []string{strings.Repeat("x", n)},
 		})
+	}
+	// A TXT record with an n-byte string takes 25+n bytes.
+	for l-m.Len() >= 90 {
+		txt(40)
+	}
+	if rem := l - m.Len(); rem >= 25 {
+		txt(rem - 25)
 	}
 
 	return m
+}
+
+// genRespLen picks a response size; half of the time right at a multiple of
+// the response-size estimate or one byte off.
+func genRespLen(rng *rand.Rand, est uint64, span int) int {
+	if e := int(est); rng.IntN(2) == 0 && e > 1 {
+		if l := e*(1+rng.IntN(4)) + rng.IntN(3) - 1; l >= 54 && l <= 60+span {
+			return l
+		}
+	}
+
+	return 40 + rng.IntN(span)
 }
 
 // spin makes sure the wall clock advances by well over the 1 ns interval used
@@ -345,7 +411,10 @@ func backoffCampaign(o *hlib.Opts, r *hlib.Result, m *hlib.Model) {
 			case 1:
 				e.qtype = dns.TypeAAAA
 			case 2, 3:
-				e.respLen = 40 + rng.IntN(400)
+				e.respLen = genRespLen(rng, c.est, 400)
+			}
+			if rng.IntN(12) == 0 {
+				e = bev{isDyn: true, dyn: genNets(rng)}
 			}
 			evs[j] = e
 		}
@@ -353,36 +422,66 @@ func backoffCampaign(o *hlib.Opts, r *hlib.Result, m *hlib.Model) {
 	}
 }
 
+func limitText(c *bcfg, ip netip.Addr) string {
+	if ip.Is4() {
+		return fmt.Sprintf("limit %d per %s, /%d, backoff after %d", c.c4, c.i4, c.l4, c.count)
+	}
+
+	return fmt.Sprintf("limit %d per %s, /%d, backoff after %d", c.c6, c.i6, c.l6, c.count)
+}
+
 func runBackoffCase(ctx context.Context, r *hlib.Result, m *hlib.Model, c *bcfg, evs []bev) {
 	m.ResetLog()
-	lim := c.real()
+	lim, al := c.realDyn()
 	lines := c.modelLines()
 	pre := len(lines)
+	// Reference monitor: the property as stated.
+	ref := newRef(c, false)
+	ref.dynamic = c.dyn
+	refOK := true
 	// Twin limiter for the isolation oracle: sees only the events of the
-	// first event's subnet.
-	twin := c.real()
-	focus := evs[0].ip
-	key := func(ip netip.Addr) netip.Prefix {
-		l := c.l6
-		if ip.Is4() {
-			l = c.l4
-		}
-		p, err := ip.Prefix(l)
-		hlib.Must(err)
+	// first query's subnet (and every allowlist update).
+	twin, twinAl := c.realDyn()
+	var focus netip.Addr
+	for _, e := range evs {
+		if !e.isDyn {
+			focus = e.ip
 
-		return p
+			break
+		}
 	}
-	focusKey := key(focus)
+	key := func(ip netip.Addr) string {
+		if ip.Is4() {
+			return maskKey(ip, c.l4)
+		}
+
+		return maskKey(ip, c.l6)
+	}
+	focusKey := ""
+	if focus.IsValid() {
+		focusKey = key(focus)
+	}
 	drops, passes := 0, 0
 	gots := make([]string, len(evs))
 	for j, e := range evs {
 		now := spin()
+		if e.isDyn {
+			al.Update(e.dyn)
+			twinAl.Update(e.dyn)
+			ref.dynamic = e.dyn
+			lines = append(lines, dynLine(e.dyn))
+			gots[j] = "ok"
+			r.Count("backoff.allowlist_update")
+
+			continue
+		}
 		if e.respLen > 0 {
 			resp := mkResp(e.qtype, e.respLen)
 			lim.CountResponses(ctx, resp, e.ip)
 			if key(e.ip) == focusKey {
 				twin.CountResponses(ctx, resp, e.ip)
 			}
+			ref.countResp(now, e.ip, e.qtype, resp.Len())
 			lines = append(lines, fmt.Sprintf("resp %d %s %d %d", now, addrArgs(e.ip), e.qtype, resp.Len()))
 			gots[j] = "ok"
 			r.Count("backoff.countResponses")
@@ -405,15 +504,25 @@ func runBackoffCase(ctx context.Context, r *hlib.Result, m *hlib.Model, c *bcfg,
 		lines = append(lines, fmt.Sprintf("req %d %s %d", now, addrArgs(e.ip), e.qtype))
 		// Property oracles on the real code.
 		isAny := c.refuseAny && e.qtype == dns.TypeANY
-		inAllow := false
-		for _, p := range c.allow {
-			inAllow = inAllow || p.Contains(e.ip)
-		}
+		inAllow := anyNetHas(ref.persistent, e.ip) || anyNetHas(ref.dynamic, e.ip)
 		if isAny && !drop {
-			r.Violate("refuse-any", fmt.Sprintf("ANY query from %s not dropped although refusal is configured", e.ip), lines)
+			r.Violate("refuse-any", fmt.Sprintf("ANY query from %s not dropped although refusal is configured", e.ip), append([]string{}, lines...))
 		}
 		if inAllow && !isAny && (drop || !allowlisted) {
-			r.Violate("allowlist", fmt.Sprintf("allowlisted %s got %s", e.ip, got), append([]string{}, lines...))
+			r.Violate("allowlist", fmt.Sprintf("allowlisted %s got %s (persistent %v, dynamic %v)", e.ip, got, ref.persistent, ref.dynamic),
+				append([]string{}, lines...))
+		}
+		if refOK {
+			want, why, inWin := ref.check(now, e.ip, e.qtype)
+			if why == "backoff" {
+				r.Count("backoff.ref_in_backoff")
+			}
+			if want != got {
+				refOK = false
+				r.Violate(mismatchSig("", got, want), fmt.Sprintf("query %d from %s (qtype %d) %s; allowlist persistent %v dynamic %v",
+					j, e.ip, e.qtype, mismatchText(got, want, why, inWin, limitText(c, e.ip)), ref.persistent, ref.dynamic),
+					map[string]any{"campaign": "backoff", "ops": append([]string{}, lines...), "expected": want})
+			}
 		}
 		if key(e.ip) == focusKey {
 			d2, a2, err2 := twin.IsRateLimited(ctx, mkReq(e.qtype), e.ip)
@@ -451,6 +560,12 @@ func stripTimes(log []string) (out []string) {
 		}
 		if len(f) > 3 && f[0] == "mw" {
 			f[2] = "t"
+		}
+		if len(f) > 4 && f[0] == "libmw" {
+			f[3] = "t"
+		}
+		if len(f) > 2 && (f[0] == "pcheck" || f[0] == "presp") {
+			f[1] = "t"
 		}
 		out = append(out, strings.Join(f, " "))
 	}
@@ -494,7 +609,7 @@ func backoffExpiryFinding(o *hlib.Opts, r *hlib.Result) {
 // profile with its own limiter recognised through its linked IP.
 func mwCampaign(o *hlib.Opts, r *hlib.Result, m *hlib.Model) {
 	rng := o.Rand("mw")
-	n := 150
+	n := 300
 	if o.Thorough() {
 		n = 2000
 	}
@@ -502,17 +617,23 @@ func mwCampaign(o *hlib.Opts, r *hlib.Result, m *hlib.Model) {
 	for i := 0; i < n; i++ {
 		c := genCfg(rng)
 		c.est = uint64(100 + rng.IntN(3)*100)
-		lim := c.real()
+		lim, al := c.realDyn()
+		ref := newRef(c, false)
+		ref.dynamic = c.dyn
+		var refP *refProfile
+		refOK := true
+		var pend *pending
 		profIP := netip.MustParseAddr("10.0.0.1")
 		var profLim agd.Ratelimiter = agd.GlobalRatelimiter{}
 		profLine := "noprof"
 		hasProf := rng.IntN(3) > 0
 		if hasProf && rng.IntN(3) > 0 {
-			rc := &agd.RatelimitConfig{RPS: uint32(rng.IntN(4)), Enabled: true}
+			rc := &agd.RatelimitConfig{RPS: uint32([]int{0, 1, 2, 3, 6, 50}[rng.IntN(6)]), Enabled: true}
 			for k := rng.IntN(3); k > 0; k-- {
 				rc.ClientSubnets = append(rc.ClientSubnets, genPrefix(rng))
 			}
 			profLim = agd.NewDefaultRatelimiter(rc, datasize.ByteSize(c.est))
+			refP = &refProfile{rps: int(rc.RPS), est: int(c.est), subnets: rc.ClientSubnets}
 			profLine = fmt.Sprintf("prof %d %d", rc.RPS, c.est)
 			for _, p := range rc.ClientSubnets {
 				profLine += " " + prefArgs(p)
@@ -540,10 +661,17 @@ func mwCampaign(o *hlib.Opts, r *hlib.Result, m *hlib.Model) {
 		var respLen int
 		srvDNS := stack.NewServer("dns", agd.ProtoDNS, true)
 		srvDoT := stack.NewServer("dot", agd.ProtoDoT, true, &agd.ServerBindData{AddrPort: netip.MustParseAddrPort("192.0.2.2:853")})
+		// Every protocol other than plain DNS is outside the limiter's reach.
+		others := []*agd.Server{
+			srvDoT,
+			stack.NewServer("doh", agd.ProtoDoH, true, &agd.ServerBindData{AddrPort: netip.MustParseAddrPort("192.0.2.2:443")}),
+			stack.NewServer("doq", agd.ProtoDoQ, true, &agd.ServerBindData{AddrPort: netip.MustParseAddrPort("192.0.2.2:8853")}),
+			stack.NewServer("dnscrypt", agd.ProtoDNSCrypt, true, &agd.ServerBindData{AddrPort: netip.MustParseAddrPort("192.0.2.2:5443")}),
+		}
 		st := stack.New(&stack.Config{
 			RateLimit: lim,
 			ProfileDB: pdb,
-			Servers:   []*agd.Server{srvDNS, srvDoT},
+			Servers:   append([]*agd.Server{srvDNS}, others...),
 			Upstream: dnsserver.HandlerFunc(func(ctx context.Context, rw dnsserver.ResponseWriter, req *dns.Msg) error {
 				if respLen < 0 {
 					return nil
@@ -559,6 +687,16 @@ func mwCampaign(o *hlib.Opts, r *hlib.Result, m *hlib.Model) {
 		nev := 5 + rng.IntN(40)
 		dropped, served := 0, 0
 		for j := 0; j < nev; j++ {
+			if rng.IntN(15) == 0 {
+				nets := genNets(rng)
+				al.Update(nets)
+				ref.dynamic = nets
+				lines = append(lines, dynLine(nets))
+				gots = append(gots, "ok")
+				r.Count("mw.allowlist_update")
+
+				continue
+			}
 			ip := genAddr(rng)
 			if hasProf && rng.IntN(2) == 0 {
 				ip = profIPs[rng.IntN(len(profIPs))]
@@ -567,14 +705,19 @@ func mwCampaign(o *hlib.Opts, r *hlib.Result, m *hlib.Model) {
 			if rng.IntN(10) == 0 {
 				qt = dns.TypeANY
 			}
-			respLen = 40 + rng.IntN(500)
+			respLen = genRespLen(rng, c.est, 500)
 			srv, limited := srvDNS, true
 			if rng.IntN(8) == 0 {
-				srv, limited = srvDoT, false
+				srv, limited = others[rng.IntN(len(others))], false
+				r.Count("mw.proto=" + srv.Protocol.String())
 			}
 			now := spin()
-			out := st.Serve(ctx, &stack.Req{Server: srv, Msg: mkReq(qt), Remote: netip.AddrPortFrom(ip, 1234),
-				Local: netip.MustParseAddrPort("192.0.2.2:53")})
+			sreq := &stack.Req{Server: srv, Msg: mkReq(qt), Remote: netip.AddrPortFrom(ip, 1234),
+				Local: netip.MustParseAddrPort("192.0.2.2:53")}
+			if srv.Protocol == agd.ProtoDoH {
+				sreq.ReqInfo = &dnsserver.RequestInfo{URL: &url.URL{Path: "/dns-query"}}
+			}
+			out := st.Serve(ctx, sreq)
 			if out.Err != nil {
 				r.Disagree("mw-error", fmt.Sprintf("stack returned error %v", out.Err), lines)
 
@@ -606,12 +749,54 @@ func mwCampaign(o *hlib.Opts, r *hlib.Result, m *hlib.Model) {
 			eff := ip.Unmap()
 			isProf := hasProf && isProfIP(eff)
 			lines = append(lines, fmt.Sprintf("mw %s %d %s %d %s %s", b2s(limited), now, addrArgs(eff), qt, lenArg, b2s(isProf)))
+			// Property oracle: what the statement says must happen to this query.
+			if refOK && got != "silent" {
+				want, how := "served", "the protocol is not rate limited"
+				countLen := 0
+				if respLen >= 0 {
+					countLen, _ = strconv.Atoi(lenArg)
+				}
+				if limited {
+					pv := "global"
+					if isProf && refP != nil {
+						pv, _ = refP.check(now, eff)
+					}
+					switch pv {
+					case "drop":
+						want, how = "dropped", "the profile's own limit is exhausted"
+					case "pass":
+						how = "the profile's own limit applies and is not exhausted"
+						refP.countResp(now, eff, countLen)
+					default:
+						v, why, inWin := ref.check(now, eff, qt)
+						how = refWhy(v, why, inWin, limitText(c, eff))
+						if v == "drop" {
+							want = "dropped"
+						} else if v == "pass" {
+							ref.countResp(now, eff, qt, countLen)
+						}
+					}
+				}
+				if want != got {
+					refOK = false
+					sig := "mw-late-pass"
+					what := fmt.Sprintf("query %d from %s (qtype %d, profile %v) must be dropped without a response (%s) but the client received one", j, eff, qt, isProf, how)
+					if got == "dropped" {
+						sig = "mw-early-drop"
+						what = fmt.Sprintf("query %d from %s (qtype %d, profile %v) was dropped although it must be served (%s)", j, eff, qt, isProf, how)
+					} else if out.Resp != nil {
+						what += fmt.Sprintf(" (rcode %d)", out.Resp.Rcode)
+					}
+					pend = newPending(sig, what, map[string]any{"campaign": "mw", "ops": append([]string{}, lines...), "expected": want})
+				}
+			}
 		}
 		if time.Since(t0) > 400*time.Millisecond {
 			r.Count("mw.discarded_slow")
 
 			continue
 		}
+		pend.raise(r)
 		answers := m.Batch(lines)[pre:]
 		for j := range gots {
 			want := answers[j]
@@ -690,6 +875,9 @@ func profLimCampaign(o *hlib.Opts, r *hlib.Result, m *hlib.Model) {
 		for _, p := range rc.ClientSubnets {
 			profLine += " " + prefArgs(p)
 		}
+		refP := &refProfile{rps: int(rc.RPS), est: int(est), subnets: rc.ClientSubnets}
+		refOK := true
+		var pend *pending
 		lines := []string{"cfg 0 0 0 1 1 1 32 1 1 128 0", profLine}
 		pre := len(lines)
 		var gots []string
@@ -699,11 +887,12 @@ func profLimCampaign(o *hlib.Opts, r *hlib.Result, m *hlib.Model) {
 			ip := genAddr(rng)
 			now := spin()
 			if rng.IntN(5) == 0 {
-				resp := mkResp(dns.TypeA, 40+rng.IntN(500))
+				resp := mkResp(dns.TypeA, genRespLen(rng, est, 500))
 				lim.CountResponses(ctx, resp, ip)
 				if inSub(ip) {
 					twin.CountResponses(ctx, resp, ip)
 				}
+				refP.countResp(now, ip, resp.Len())
 				lines = append(lines, fmt.Sprintf("presp %d %s %d", now, addrArgs(ip), resp.Len()))
 				gots = append(gots, "ok")
 
@@ -731,6 +920,13 @@ func profLimCampaign(o *hlib.Opts, r *hlib.Result, m *hlib.Model) {
 				drops++
 			}
 			lines = append(lines, fmt.Sprintf("pcheck %d %s", now, addrArgs(ip)))
+			if want, inWin := refP.check(now, ip); refOK && want != got {
+				refOK = false
+				pend = newPending(mismatchSig("profile-limit-", got, want), fmt.Sprintf(
+					"profile limiter (rps %d, response estimate %d, subnets %v): check from %s got %s, expected %s with %d events of the profile in the last second",
+					rc.RPS, est, rc.ClientSubnets, ip, got, want, inWin),
+					map[string]any{"campaign": "proflim", "ops": append([]string{}, lines...), "expected": want})
+			}
 			gots = append(gots, got)
 		}
 		if time.Since(t0) > 300*time.Millisecond {
@@ -738,6 +934,7 @@ func profLimCampaign(o *hlib.Opts, r *hlib.Result, m *hlib.Model) {
 
 			continue
 		}
+		pend.raise(r)
 		answers := m.Batch(lines)[pre:]
 		for j := range gots {
 			if gots[j] != answers[j] {
@@ -757,41 +954,60 @@ func profLimCampaign(o *hlib.Opts, r *hlib.Result, m *hlib.Model) {
 	}
 }
 
-// timedCampaign exercises cache-entry expiry (Period, Duration) and a
-// millisecond-scale window with real sleeps on a 100 ms grid.  All
-// boundaries (30 ms window, 250 ms expiry) lie at least 30 ms away from any
-// grid point, measured stamps are passed to the model, and a schedule whose
-// measured stamps drift more than 20 ms from the plan is discarded.
+// timedCampaign exercises cache-entry expiry (Period, Duration), a
+// millisecond-scale window and the profile limiter's one-second window with
+// real sleeps on a grid (100 ms for Backoff, 150 ms for the profile limiter).
+// All boundaries (30 ms / 250 ms / 1 s windows, 250 ms expiry) lie at least
+// 30 ms away from any difference of grid points, measured stamps are passed to
+// the model and to the reference monitor, and a schedule whose measured stamps
+// drift more than 20 ms from the plan is discarded.
 func timedCampaign(o *hlib.Opts, r *hlib.Result, m *hlib.Model) {
 	rng := o.Rand("timed")
-	n := 12
+	n := 64
 	if o.Thorough() {
-		n = 96
+		n = 320
 	}
 	type sched struct {
-		c      *bcfg
-		bursts []int
-		lines  []string
-		gots   []string
-		ok     bool
+		c       *bcfg
+		profile bool
+		rps     uint32
+		step    time.Duration
+		bursts  []int
+		lines   []string
+		gots    []string
+		nows    []int64
+		ok      bool
 	}
 	scheds := make([]*sched, n)
 	for i := range scheds {
 		exp := []time.Duration{250 * time.Millisecond, time.Hour}
-		c := &bcfg{count: uint(2 + rng.IntN(2)), period: exp[rng.IntN(2)], duration: exp[rng.IntN(2)], est: 100000,
-			c4: uint(1 + rng.IntN(2)), i4: []time.Duration{30 * time.Millisecond, 250 * time.Millisecond}[rng.IntN(2)], l4: 24,
+		c := &bcfg{count: uint(rng.IntN(4)), period: exp[rng.IntN(2)], duration: exp[rng.IntN(2)], est: 100000,
+			c4: uint(1 + rng.IntN(3)), i4: []time.Duration{30 * time.Millisecond, 250 * time.Millisecond}[rng.IntN(2)], l4: 24,
 			c6: 1, i6: time.Hour, l6: 48}
 		if i == 0 {
 			// The schedule of seeded mutant C09-hit-expiry-slides.
 			c = &bcfg{count: 3, period: time.Hour, duration: 250 * time.Millisecond, est: 100000, c4: 1,
 				i4: 30 * time.Millisecond, l4: 24, c6: 1, i6: time.Hour, l6: 48}
 		}
-		sc := &sched{c: c}
+		sc := &sched{c: c, step: 100 * time.Millisecond}
 		for g := 0; g < 6; g++ {
 			sc.bursts = append(sc.bursts, rng.IntN(4))
 		}
 		if i == 0 {
 			sc.bursts = []int{2, 2, 2, 1, 1, 0}
+		}
+		if i%4 == 3 {
+			// The profile limiter: `rps` per second; differences of grid points
+			// are multiples of 150 ms, so 900 ms is inside and 1050 ms outside.
+			sc.profile, sc.rps, sc.step, sc.bursts = true, uint32(1+rng.IntN(3)), 150*time.Millisecond, nil
+			sc.c = &bcfg{est: 1, c4: 1, i4: 1, l4: 32, c6: 1, i6: 1, l6: 128}
+			for g := 0; g < 9; g++ {
+				b := rng.IntN(5) - 2
+				if g == 0 {
+					b = 1 + rng.IntN(3)
+				}
+				sc.bursts = append(sc.bursts, max(b, 0))
+			}
 		}
 		scheds[i] = sc
 	}
@@ -802,24 +1018,37 @@ func timedCampaign(o *hlib.Opts, r *hlib.Result, m *hlib.Model) {
 		go func(sc *sched) {
 			defer func() { done <- struct{}{} }()
 			lim := sc.c.real()
+			plim := agd.NewDefaultRatelimiter(&agd.RatelimitConfig{RPS: sc.rps, Enabled: true}, 100000)
 			sc.lines = sc.c.modelLines()
+			if sc.profile {
+				sc.lines = append(sc.lines, fmt.Sprintf("prof %d 100000", sc.rps))
+			}
 			sc.ok = true
 			start := time.Now()
 			for g, b := range sc.bursts {
-				target := start.Add(time.Duration(g) * 100 * time.Millisecond)
+				target := start.Add(time.Duration(g) * sc.step)
 				time.Sleep(time.Until(target))
 				for k := 0; k < b; k++ {
 					now := time.Now()
 					if d := now.Sub(target); d < 0 || d > 20*time.Millisecond {
 						sc.ok = false
 					}
-					drop, _, err := lim.IsRateLimited(ctx, mkReq(dns.TypeA), ip)
-					hlib.Must(err)
+					var got string
+					if sc.profile {
+						got = map[agd.RatelimitResult]string{agd.RatelimitResultPass: "pass", agd.RatelimitResultDrop: "drop",
+							agd.RatelimitResultUseGlobal: "global"}[plim.Check(ctx, mkReq(dns.TypeA), ip)]
+						sc.lines = append(sc.lines, fmt.Sprintf("pcheck %d %s", now.UnixNano(), addrArgs(ip)))
+					} else {
+						drop, _, err := lim.IsRateLimited(ctx, mkReq(dns.TypeA), ip)
+						hlib.Must(err)
+						got = map[bool]string{true: "drop", false: "pass"}[drop]
+						sc.lines = append(sc.lines, fmt.Sprintf("req %d %s %d", now.UnixNano(), addrArgs(ip), dns.TypeA))
+					}
 					if after := time.Since(now); after > 5*time.Millisecond {
 						sc.ok = false
 					}
-					sc.gots = append(sc.gots, map[bool]string{true: "drop", false: "pass"}[drop])
-					sc.lines = append(sc.lines, fmt.Sprintf("req %d %s %d", now.UnixNano(), addrArgs(ip), dns.TypeA))
+					sc.gots = append(sc.gots, got)
+					sc.nows = append(sc.nows, now.UnixNano())
 				}
 			}
 		}(sc)
@@ -833,7 +1062,55 @@ func timedCampaign(o *hlib.Opts, r *hlib.Result, m *hlib.Model) {
 
 			continue
 		}
-		pre := len(sc.c.modelLines())
+		pre := len(sc.lines) - len(sc.gots)
+		desc := fmt.Sprintf("schedule %d (bursts %v on a %s grid, limit %d per %s, backoff after %d, period %s, duration %s)",
+			i, sc.bursts, sc.step, sc.c.c4, sc.c.i4, sc.c.count, sc.c.period, sc.c.duration)
+		if sc.profile {
+			desc = fmt.Sprintf("schedule %d (profile limiter, %d per second, bursts %v on a %s grid)", i, sc.rps, sc.bursts, sc.step)
+		}
+		// Property oracle first: the reference monitor on the measured stamps.
+		if sc.profile {
+			refP := &refProfile{rps: int(sc.rps), est: 100000}
+			for j, got := range sc.gots {
+				if want, inWin := refP.check(sc.nows[j], ip); want != got {
+					r.Violate(mismatchSig("profile-limit-", got, want), fmt.Sprintf(
+						"%s: query %d got %s, expected %s with %d events of the profile in the preceding second", desc, j, got, want, inWin),
+						map[string]any{"campaign": "timed", "ops": sc.lines[:pre+j+1], "expected": want})
+
+					break
+				}
+			}
+			r.Count("timed.profile_cases")
+		} else {
+			// withReset reproduces the recorded deviation
+			// reqcounter-expires-period-after-creation, pure is the statement.
+			withReset, pure := newRef(sc.c, true), newRef(sc.c, false)
+			resetBad, pureBad := -1, -1
+			var resetWhat string
+			var resetWant string
+			for j, got := range sc.gots {
+				want, why, inWin := withReset.check(sc.nows[j], ip, dns.TypeA)
+				if want != got && resetBad < 0 {
+					resetBad, resetWant = j, want
+					resetWhat = mismatchText(got, want, why, inWin, limitText(sc.c, ip))
+				}
+				if wantP, _, _ := pure.check(sc.nows[j], ip, dns.TypeA); wantP != got && pureBad < 0 {
+					pureBad = j
+				}
+			}
+			switch {
+			case pureBad < 0:
+				r.Count("timed.exact_window")
+			case resetBad < 0:
+				r.Count("timed.known_reset_seen")
+				r.Violate("reqcounter-expires-period-after-creation", fmt.Sprintf(
+					"%s: query %d got %s; the subnet's window log is forgotten `period` after its first event",
+					desc, pureBad, sc.gots[pureBad]), map[string]any{"campaign": "timed", "ops": sc.lines[:pre+pureBad+1]})
+			default:
+				r.Violate(mismatchSig("", sc.gots[resetBad], resetWant), fmt.Sprintf("%s: query %d %s", desc, resetBad, resetWhat),
+					map[string]any{"campaign": "timed", "ops": sc.lines[:pre+resetBad+1], "expected": resetWant})
+			}
+		}
 		answers := m.Batch(sc.lines)[pre:]
 		drops, passes := 0, 0
 		for j := range sc.gots {
@@ -843,8 +1120,7 @@ func timedCampaign(o *hlib.Opts, r *hlib.Result, m *hlib.Model) {
 				passes++
 			}
 			if sc.gots[j] != answers[j] {
-				r.Disagree("timed", fmt.Sprintf("schedule %d (bursts %v on a 100 ms grid, window %s, period %s, duration %s): Backoff=%s model=%s at query %d",
-					i, sc.bursts, sc.c.i4, sc.c.period, sc.c.duration, sc.gots[j], answers[j], j),
+				r.Disagree("timed", fmt.Sprintf("%s: real=%s model=%s at query %d", desc, sc.gots[j], answers[j], j),
 					map[string]any{"campaign": "timed", "ops": sc.lines[:pre+j+1]})
 
 				break
@@ -860,11 +1136,27 @@ func timedCampaign(o *hlib.Opts, r *hlib.Result, m *hlib.Model) {
 					"a subnet stays in backoff although its first hit is older than the backoff duration", sc.gots),
 				map[string]any{"campaign": "timed", "ops": sc.lines})
 		}
-		r.Case(fmt.Sprintf("timed %v %v %v %v %v", sc.bursts, sc.c.i4, sc.c.period, sc.c.duration, sc.c.count), drops > 0 && passes > 0)
+		r.Case(fmt.Sprintf("timed %v %v %v %v %v %v %v %v", sc.profile, sc.rps, sc.bursts, sc.c.i4, sc.c.period, sc.c.duration, sc.c.count, sc.c.c4),
+			drops > 0 && passes > 0)
 		r.Count("timed.cases")
-		if i < 2 {
-			r.Sample(map[string]any{"campaign": "timed", "bursts_per_100ms": sc.bursts, "ops": truncate(stripTimes(sc.lines), 8)}, 14)
+		if i < 2 || i == 3 {
+			r.Sample(map[string]any{"campaign": "timed", "bursts": sc.bursts, "grid": sc.step.String(), "ops": truncate(stripTimes(sc.lines), 8)}, 14)
 		}
 		r.Traces++
+	}
+}
+
+// pending is a violation found inside a timing-sensitive case; it is raised
+// only when the case turns out not to have been disturbed by the scheduler.
+type pending struct {
+	sig, what string
+	replay    any
+}
+
+func newPending(sig, what string, replay any) *pending { return &pending{sig, what, replay} }
+
+func (p *pending) raise(r *hlib.Result) {
+	if p != nil {
+		r.Violate(p.sig, p.what, p.replay)
 	}
 }
